@@ -39,6 +39,7 @@ def run(project, rep):
     rep.run(Z.z_r3_writer_shape, project, rep)
     rep.run(Z.z_r4_conversion, project, rep)
     rep.run(Z.z_r5_offset_sign, project, rep)
+    rep.run(Z.z_r5b_sign_of_zero_hours, project, rep)
     rep.run(Z.z_r6_carrier_date, project, rep)
     rep.run(Z.z_r7_aware_values_kept, project, rep)
     rep.run(L.l_r3_datetime, project, rep)
